@@ -136,6 +136,11 @@ impl<const N: usize> AEADCipherCodec<N> {
             Some(ref mut decoder) => {
                 let mut dst = BytesMut::new();
                 decoder.decode_payload(src, &mut dst).map_err(|e| anyhow!(e))?;
+                if matches!(session.mode, Mode::Server) && session.address.is_none() && !dst.is_empty() {
+                    // AEAD ciphers: the request stream starts with the target address (2022 carries it in its header)
+                    session.address = Some(address::decode(&mut dst)?);
+                    return Ok(Some(dst));
+                }
                 if dst.is_empty() { Ok(None) } else { Ok(Some(dst)) }
             }
             None => self.init_payload_decoder(context, session, src),
